@@ -29,5 +29,6 @@
 //@   rewrite_re T-DROP 1 "(?s)impl OperationTypePrinterOptions \\{.*?\\n\\}\\n" => "/* vx: impl OperationTypePrinterOptions::from_config dropped */\n"
 //@   rewrite T-DROP 1 "use crate::nitrogql_config_file::{Config, GenerateMode};\nuse crate::nitrogql_utils::clone_into;\n" => "/* vx: imports of dropped from_config removed */\n"
 //@   format_concat
+//@   assert_eq_to_panic
 //@   reduce operation_js_printer/printers print_operation_runtime,print_fragment_runtime drop_use=json_printer
 //@ end
